@@ -374,7 +374,7 @@ def check(spec):
     M = reps.get(anchor) if anchor else None
     nontrivial = len(names) >= 2 and M is not None and not _close(M, np.eye(M.shape[0]))
     labels.append(f"nreps:{len(names)}")
-    return Result(nontrivial, labels=labels)
+    return Result(nontrivial, labels=labels + zoo_extra.coverage_labels())
 
 
 def _check_batch(e, op, labels):
